@@ -35,7 +35,7 @@ HANG_NOTE = "a scenario child that does not answer within runner.HANG_S is repor
 SHRINK_LISTS = ["threads", "switches"]
 RULE = (
     "thread runs (3 of 4): 2-4 real threads, one runnable at a time, pre-empted at pyrtcm source-line granularity by a "
-    "seeded scheduler (Bernoulli per line boosted after call/return, or PCT-style change points), each thread running "
+    "seeded scheduler (Bernoulli per line boosted after call/return, PCT-style change points, or log-uniform time slices), each thread running "
     "1-6 operations (RTCMMessage(payload), RTCMReader.parse(frame), iterate a fresh reader over several frames from a "
     "BytesIO or from its own simulated socket, feed a long-lived reader successive streams, str(msg)) drawn from a themed workload (same type / MSM vs MSM with different "
     "masks and label options / sibling types / succeeding vs failing parses of one type / mixed) over the full corpus "
@@ -229,10 +229,14 @@ _EMPTY = (dict, list, set)
 
 
 def tables_snapshot():
-    """names of the module-level data the library defines at import time
-    (definition and lookup tables): every non-empty module-level container.
-    Containers that are empty at import are caches/registries by construction,
-    and scalars are configuration/counters -- neither is a table."""
+    """names of the library's definition and lookup tables: every module-level
+    container that is non-empty at import time and bound to a public constant
+    name (ALL CAPS, no leading underscore -- the convention every table of the
+    library follows).  Containers that are empty at import, or bound to private
+    names, are caches/registries by construction and scalars are configuration
+    or counters: a correct cache may grow while parsing without the property
+    being touched; whether it changes a *result* is what the outcome comparison
+    decides."""
     names = []
     for name in sorted(sys.modules):
         if name == "pyrtcm" or name.startswith("pyrtcm."):
@@ -241,7 +245,7 @@ def tables_snapshot():
                 if k.startswith("__"):
                     continue
                 v = vars(mod)[k]
-                if isinstance(v, (dict, list, tuple, set, frozenset)) and len(v) > 0:
+                if isinstance(v, (dict, list, tuple, set, frozenset)) and len(v) > 0 and not k.startswith("_") and k.upper() == k:
                     names.append((name, k))
     return names
 
@@ -461,7 +465,15 @@ def generate(master, index, tier):
         "mode": "threads",
         "theme": theme,
         "threads": threads,
-        "sched": {"seed": rng.getrandbits(48), "p": p, "p_boost": rng.choice((p, 0.2, 0.5)), "pct": rng.choice((0, 0, 1, 2, 3, 5))},
+        "sched": {
+            "seed": rng.getrandbits(48),
+            "p": p,
+            "p_boost": rng.choice((p, 0.2, 0.5)),
+            "pct": rng.choice((0, 0, 1, 2, 3, 5)),
+            # every other thread run: log-uniform time slices instead of a constant per-line probability
+            # negative: slice length measured in fresh (not recently executed) lines
+            "slices": rng.choice((300, 3000, -30, -150, -400, -400)) if index % 2 == 1 else 0,
+        },
     }
 
 
@@ -510,7 +522,7 @@ def _run_scenario(scn):
         else:
             sch = scn["sched"]
             srng = R.random.Random(sch["seed"])
-            sc = Scheduler(prefix, rng=srng, p=sch["p"], p_boost=sch["p_boost"], change_points=sch.get("change_points"))
+            sc = Scheduler(prefix, rng=srng, p=sch["p"], p_boost=sch["p_boost"], change_points=sch.get("change_points"), slices=sch.get("slices", 0))
         results = sc.run(bodies)
         switches = sc.taken
         sites = set(sc.switch_sites)
@@ -546,7 +558,7 @@ def execute(scn):
     expect = {repr(op): b for op, b in zip(all_ops, base)}
     viol = None
     run_scn = scn
-    if scn["mode"] == "threads" and "switches" not in scn and scn["sched"].get("pct") and len(threads) > 1:
+    if scn["mode"] == "threads" and "switches" not in scn and scn["sched"].get("pct") and not scn["sched"].get("slices") and len(threads) > 1:
         total = max(1, _in_child(_count_steps, scn))
         srng = R.random.Random(scn["sched"]["seed"] ^ 0x5A5A)
         run_scn = dict(scn)
